@@ -220,6 +220,86 @@ def check_tree(res, case, tree, plain_tree, sens, plain, mask):
         res.violate("C10:non-sensitive-altered", "a secret declared non-sensitive was altered by the mask", case)
 
 
+def late_field_stream(ctx, res):
+    """schemas that change after they were first rendered with a mask: a sensitive field is added to the root schema, to a nested
+    sub-schema, to the item schema of a configuration list, a field is replaced by a sensitive one, a field's flag is switched on or
+    off. Every later rendering (old and new configurations, trees and documents) masks exactly the fields that are sensitive then."""
+    import cincoconfig as cc
+    for mask in ("*", "<hidden>", ""):
+        for where in ("root", "sub", "item", "replace", "flag-on", "flag-off"):
+            for old_cfg in (True, False):
+                item = cc.Schema()
+                item.label = cc.StringField(default="l")
+                s = cc.Schema()
+                s.name = cc.StringField(default="n")
+                s.note = cc.StringField(default="public-note")
+                s.pin = cc.StringField(default="1234-pin", sensitive=True)
+                s.db.host = cc.StringField(default="h")
+                s.items = cc.ListField(item, default=lambda: [])
+                first = s()
+                first.items = [{"label": "a"}]
+                first.to_tree(sensitive_mask=mask)
+                first.dumps(format="json", sensitive_mask=mask)
+                first.items[0].to_tree(sensitive_mask=mask)
+                first.db.to_tree(sensitive_mask=mask)
+                if where == "root":
+                    s.token = cc.StringField(sensitive=True)
+                elif where == "sub":
+                    s.db.password = cc.StringField(sensitive=True)
+                elif where == "item":
+                    item.key = cc.StringField(sensitive=True)
+                elif where == "replace":
+                    s.note = cc.StringField(default="public-note", sensitive=True)
+                elif where == "flag-on":
+                    s._fields["note"].sensitive = True
+                else:
+                    s._fields["pin"].sensitive = False
+                cfg = first if old_cfg else s()
+                secret = "LATE-SECRET-%s" % where
+                try:
+                    if where == "root":
+                        cfg.token = secret
+                    elif where == "sub":
+                        cfg.db.password = secret
+                    elif where == "item":
+                        cfg.items = [{"label": "b", "key": secret}]
+                    elif where in ("replace", "flag-on"):
+                        cfg.note = secret
+                    else:
+                        cfg.pin = secret
+                except Exception as e:  # noqa
+                    res.case(None, kind="late-field:setup-%s" % type(e).__name__)
+                    continue
+                case = {"stream": "late-field", "where": where, "mask": mask, "configuration_existed_before": old_cfg}
+                res.case(stable(case), kind="late-field:" + where)
+                want_mask = (mask * len(secret)) if len(mask) == 1 else mask
+                tree = cfg.to_tree(sensitive_mask=mask)
+                plain = cfg.to_tree()
+                pos = {"root": ("token",), "sub": ("db", "password"), "item": ("items", 0, "key"), "replace": ("note",), "flag-on": ("note",), "flag-off": ("pin",)}[where]
+                got = tree
+                for p in pos:
+                    got = got[p]
+                docs = [cfg.dumps(format=f, sensitive_mask=mask) for f in ("json", "yaml", "xml")]
+                if where == "flag-off":
+                    if got != secret or tree != plain:
+                        res.violate("C10:non-sensitive-altered", "a field that is no longer sensitive is still altered by the mask", dict(case, got=got))
+                    continue
+                if got != want_mask:
+                    res.violate("C10:not-masked", "a sensitive position does not hold the mask", dict(case, path=list(pos), got=got, want=want_mask))
+                if secret in json.dumps(tree, default=str) or any(secret.encode() in d for d in docs):
+                    res.violate("C10:leak-in-tree", "a sensitive value appears in the masked tree or document", dict(case, path=list(pos)))
+                # everything else as without a mask
+                other_t, other_p = copy.deepcopy(tree), copy.deepcopy(plain)
+                for t in (other_t, other_p):
+                    cur = t
+                    for p in pos[:-1]:
+                        cur = cur[p]
+                    cur.pop(pos[-1], None)
+                    t.pop("pin", None)
+                if other_t != other_p:
+                    res.violate("C10:non-sensitive-altered", "a non-sensitive position differs from the unmasked rendering", dict(case, masked=other_t, plain=other_p))
+
+
 def nested_stream(ctx, res, n):
     """the walk that renders configurations held below nested containers (Config._render_nested) against the model's renderNested
     (Cinco/Config/Nested.lean, theorems in Props/C10b.lean): random nestings of lists, tuples and dicts holding real configurations
@@ -295,6 +375,7 @@ def run(ctx, n_quick=150, n_thorough=5000):
     P.run_stream(ctx, res, "C10", ctx.n(n_quick, n_thorough), oracle, gen_ops=gen_ops, ops_len=(3, 8), schema_gen=gen_schema)
     guard(res, "C10", marker_stream, ctx, res, ctx.n(8, 200))
     guard(res, "C10", nested_stream, ctx, res, ctx.n(300, 8000))
+    guard(res, "C10", late_field_stream, ctx, res)
     return res
 
 
